@@ -47,6 +47,7 @@ from pytato.array import (
     InputArgumentBase,
     NamedArray,
     ShapeType,
+    SizeParam,
     Stack,
 )
 from pytato.distributed.nodes import DistributedRecv, DistributedSendRefHolder
@@ -722,6 +723,10 @@ class TagCountMapper(CombineMapper[int, Never, []]):
 
     def combine(self, *args: int) -> int:
         return sum(args)
+
+    def map_size_param(self, expr: SizeParam) -> int:
+        # a leaf; its own tags are counted in rec
+        return 0
 
     def rec(self, expr: ArrayOrNames) -> int:
         inputs = self._make_cache_inputs(expr)
